@@ -94,3 +94,20 @@ package cachekv
 //@   ensures [others] pkv.m == upd(old(pkv.m), store.parent, pkv.m[store.parent])
 //@   ensures [clean] forall k string :: !has(store.cache, k) && !has(store.unsortedCache, k)
 //@   ensures [unlocked] store.mtx == 0
+
+// C15 (iteration, part): dirtyItems hands to the sorted list exactly the dirty keys that lie in the
+// iterator's domain [start, end) - start inclusive, end exclusive, nil = unbounded: afterwards the keys still
+// awaiting sorting are the old ones outside the domain. The cache map itself is not touched.
+// (What is inserted into sortedCache, and its order, is container/list state and outside this contract.)
+//@ func (store *Store) dirtyItems(start, end []byte)
+//@   props C15
+//@   requires store.mtx == 1 && store.cache != nil && store.unsortedCache != nil
+// container/list and the KVPair items it holds are library state: whole heaps
+//@   modifies elems(store.unsortedCache), Ha_Ptr, Hc_Slice, Hc_S_container_list_Element_v, Hc_S_container_list_List_v, Hc_S_github_com_tendermint_tendermint_libs_common_KVPair_v
+//@   loop 1 invariant 0 <= iterpos(1) && iterpos(1) <= iterlen(1) && store.mtx == 1
+//@   loop 1 invariant forall k string :: has(store.unsortedCache, k) == (old(has(store.unsortedCache, k)) && !(iteridx(1, k) < iterpos(1) && !bytes_lt(bytes(k), start) && (end == nil || bytes_lt(bytes(k), end))))
+//@   loop 1 invariant forall r int :: r != ref(store.unsortedCache) ==> Hmp_Str_S_anon_fa4d6974_v[r] == old(Hmp_Str_S_anon_fa4d6974_v[r])   // the presence sets of all other map[string]struct{} values
+//@   loop 2 invariant store.mtx == 1
+//@   loop 3 invariant store.mtx == 1
+//@   ensures [domain] forall k string :: has(store.unsortedCache, k) == (old(has(store.unsortedCache, k)) && !(!bytes_lt(bytes(k), start) && (end == nil || bytes_lt(bytes(k), end))))
+//@   ensures [cache] forall k string :: has(store.cache, k) == old(has(store.cache, k)) && store.cache[k] == old(store.cache[k])
